@@ -86,7 +86,12 @@ def run(rep):
              acts=["grow", "grow_set", "grow_missing", "reload", "resow", "reap_default"], max_steps=7 if q else 10, mode="sim",
              num=800 if q else 8000, need=["GrowAny", "GrowSetAny", "DoReload", "DoReSow", "ReapDefault"]),
     ]
-    crop.drive(rep, runs, claims=lambda tag: tag in CLAIMS)
+    def variants(case, idx):
+        v = crop.default_variants(case, idx)
+        # thorough: every 9th history grows its batches in fresh OS processes (function un-pickled from disk)
+        v["subprocess"] = (rep.tier == "thorough" and idx % 9 == 0) or (rep.tier == "quick" and idx % 400 == 7)
+        return v
+    crop.drive(rep, runs, claims=lambda tag: tag in CLAIMS, variants=variants)
 
 
 def replay(rep, saved):
